@@ -267,7 +267,7 @@ func UnmarshalBytes(buf []byte, newBuf bool) (int, []byte, error) {
 	}
 
 	ln := int(uln)
-	if len(buf) < ln+idx {
+	if uln > uint(len(buf)-idx) {
 		return 0, nil, noBufErr("UnmarshalBytes-size-body", len(buf)-idx, ln)
 	}
 
